@@ -14,7 +14,7 @@ Users of this project rely on the following 20 properties:
 
 Your task: produce SIX independent, realistic API MIGRATIONS / MODERNISATIONS DONE RIGHT whose main edits are in: {files} (a change may also touch one or two other files of the repository where that is natural)
 These are the commits of a careful engineer who replaces an API, idiom or library facility by its modern equivalent after reading both contracts: every one of the 20 properties above must still hold afterwards (observable behaviour may change in harmless ways). They are used to test a static analyser for false alarms, so the interesting ones are those that touch the code the properties are about without breaking any of them. The standard library and the module's dependencies are available offline in the module cache (net/http, httputil, context, io, sync, sync/atomic, time, errors, strings/bytes, net/url, encoding/json|hex|base64, math/rand, crypto/rand, golang.org/x/net/http2+h2c, github.com/gorilla/websocket, github.com/golang/groupcache/lru, github.com/google/uuid, google.golang.org/appengine/v2 …). Kinds (use six different ones):
-  - deprecated-package moves with identical contracts: io/ioutil -> io / os (ReadAll, Discard, NopCloser), strings.Title-free code, errors.Is / errors.As where a sentinel may be wrapped, fmt.Errorf with %w, any for interface{}
+  - deprecated-package moves with identical contracts: io/ioutil -> io / os (ReadAll, Discard, NopCloser), strings.Title-free code, errors.Is / errors.As where a sentinel may be wrapped, fmt.Errorf with %w, any for interface{{}}
   - context plumbing where the new context has EXACTLY the lifetime the old code had (e.g. NewRequestWithContext(context.Background(), …) for NewRequest; DialContext with the context the function already received and already used for that purpose)
   - helper functions that exist for this: strings.Cut / CutPrefix / HasPrefix+TrimPrefix pairs, http.Header.Values/Clone where the old code did the same by hand, url.URL methods, http.MethodGet/Status* constants, time.Duration arithmetic, slices/maps helpers only if the toolchain in go.mod allows them (check `go version` and go.mod first; otherwise do not use them)
   - synchronisation modernised without weakening: atomic.Int64/atomic.Bool types for existing atomic or mutex-guarded counters that are only counters, sync.OnceValue/OnceFunc for an existing sync.Once, defer mu.Unlock() introduced where every path already unlocked, a WaitGroup helper — the same happens-before edges as before
